@@ -152,6 +152,8 @@ func deepCopyN(v interface{}, depth int, copyOnPath map[uintptr]bool) interface{
 		return c
 	case []string:
 		return append([]string{}, x...)
+	case []byte:
+		return append([]byte{}, x...)
 	case mxj.Map:
 		// a nested value of Go type mxj.Map keeps its type
 		if x == nil {
@@ -348,6 +350,10 @@ func retype(v interface{}, h uint64, kinds string, depth int) interface{} {
 			return o
 		}
 		return c
+	case string:
+		if depth > 0 && strings.Contains(kinds, "B") && pick(4) == 0 {
+			return []byte(x) // a text value held as bytes: written as the string it spells
+		}
 	}
 	return v
 }
